@@ -1150,6 +1150,7 @@ func (e *Engine) lintGhostFrames() {
 		}
 		return out
 	}
+	everModified := map[string]bool{}
 	fix := func(name string, fs *FuncSpec) {
 		if fs.Pure && !fs.ModAll {
 			return
@@ -1162,12 +1163,27 @@ func (e *Engine) lintGhostFrames() {
 			cur, old := map[string]bool{}, map[string]bool{}
 			mentions(c.E, false, cur, old)
 			for _, g := range sortedKeys(cur) {
-				if old[g] && !have[g] {
+				// any constraint on the new value of a stable ghost ("status(w) != 0" as much as "g == old(g) + 1")
+				// contradicts "unchanged" for some pre-state, so the ghost belongs to the frame
+				if !have[g] && everModified[g] {
 					have[g] = true
 					fs.Modifies = append(fs.Modifies, &EIdent{Name: g})
 					e.specLint = append(e.specLint, fmt.Sprintf("%s: %s speaks about the new value of stable ghost %s: listed in its frame implicitly", c.Line, shortCallee(name), g))
 				}
 			}
+		}
+	}
+	// ghosts that some contract changes explicitly (modifies / counted / records); a ghost that no contract ever
+	// changes is a constant spec function (idctr: "the counter printed in an id"), and facts about it are not
+	// effects
+	for _, fs := range e.specs.funcs {
+		for g := range listed(fs) {
+			everModified[g] = true
+		}
+	}
+	for _, fs := range e.specs.csByKey {
+		for g := range listed(fs) {
+			everModified[g] = true
 		}
 	}
 	for _, name := range sortedKeys(e.specs.funcs) {
